@@ -5,6 +5,7 @@
 import Driver.Proto
 import Driver.PersistStream
 import Driver.HwmonStream
+import Driver.ExecStream
 import Fan2go.Model.ControlLoop
 import Fan2go.Model.Curves
 import Fan2go.Model.Fan
@@ -21,6 +22,7 @@ structure St where
   world : World := { fan := {}, dev := {}, ctl := {} }
   ps : PersistDrvSt := {}
   hw : HwmonDrvSt := {}
+  ex : ExecDrvSt := {}
   snKind : SensorKind := .file
   snAvg : F64 := F64.zero
   snWin : Int := 10
@@ -336,6 +338,7 @@ def step (st : St) (line : String) : St × String :=
     | "fan" => opFan st op a
     | "w" => opWorld st op a
     | "sn" => opSensor st op a
+    | "ex" => let (e, o) := execStep st.ex op a; ({ st with ex := e }, o)
     | "hw" => let (h, out) := hwmonStep st.hw op a; ({ st with hw := h }, out)
     | "ps" => let (p, o) := persistStep st.ps op a; ({ st with ps := p }, o)
     | _ => (st, "bad-op")
